@@ -182,6 +182,25 @@ impl C13 {
         let mut ctx = Ctx { sc, orig, out, tensor };
         match &sc.form {
             Form::Str(k) => {
+                // call history: earlier encode / decode calls on this (fresh) thread - another
+                // diagram, and a decode that fails - before the round trip under test; state that
+                // survives between calls must not reach it
+                if !sc.more.is_empty() {
+                    ctx.out.probe("codec_call_history");
+                    for (spec, _) in &sc.more {
+                        let core = Core::new(dec, 1);
+                        let other: G = spec.build();
+                        let hb = sc.decode_hash_backend;
+                        let (_res, core) = with_sim(core, move || {
+                            let t = quizx::json::encode_graph(&other).unwrap_or_default();
+                            let _ = decode_any(&t, hb);
+                            let cut = t.len() / 2;
+                            let _ = decode_any(t.get(..cut).unwrap_or(""), hb);
+                        });
+                        dec = core.dec;
+                        ctx.out.steps += 1;
+                    }
+                }
                 let core = Core::new(dec, 1);
                 let gg = g.clone();
                 let (res, core) = with_sim(core, move || quizx::json::encode_graph(&gg));
@@ -959,6 +978,10 @@ impl Property for C13 {
             let first = names[0].to_string();
             let more = (0..k).map(|i| (gen::json_diagram_sized(d, false), names[i + 1].to_string())).collect();
             (more, first)
+        } else if sub == "string" && d.coin("str.hist", 1, 3) {
+            // the string form after earlier codec calls on other diagrams (see execute)
+            let k = 1 + d.choose("str.hk", 2);
+            ((0..k).map(|_| (gen::json_diagram_sized(d, false), String::new())).collect(), String::new())
         } else if sub == "file_multi" {
             let k = 1 + d.choose("fm.k", 4);
             // a small pool of names per run, so that stems collide and names repeat
